@@ -6,6 +6,7 @@ open Proto Rot
     entries, and the number of `w` operations so far in this history (it fixes the byte pattern of the next write) -/
 structure D where
   cfg : Option Cfg
+  opts : List Opt := []
   dir : Array (Option Bytes)
   isOpen : Bool
   size : Nat
@@ -25,8 +26,9 @@ def parseOpt (w : String) : Option Opt :=
   | ['P'] => some (.path "p")
   | ['Q'] => some (.path "q")
   | ['E'] => some (.path "")
-  | 'S' :: r => (String.ofList r).toNat?.map .maxSize
-  | 'B' :: r => (String.ofList r).toNat?.map .maxBackups
+  | 'S' :: r => (String.ofList r).toInt?.map fun i => .maxSize (clampLimit i)
+  | 'B' :: r => (String.ofList r).toInt?.map fun i => .maxBackups (clampLimit i)
+  | 'M' :: r => (String.ofList r).toNat?.map .mask
   | _ => none
 
 def parseOpts (s : String) : Option (List Opt) :=
@@ -58,12 +60,13 @@ def step (d : D) (line : String) : D × String :=
   | ["reset", o, p] =>
     match parseOpts o, parsePre p with
     | some opts, some pre =>
-      if !(opts.any fun | .path _ => true | _ => false) then (D.init, "nopath") else
       match Rot.new opts with
       | none => (D.init, "new=err")
       | some r =>
+        -- without a Path option the rotator would log to DefaultPath(): constructed, never written by the harness
+        if !r.pathSet then (D.init, "new=ok defaultpath") else
         let bound := (pre.foldl (fun m q => max m q.1) r.cfg.maxBackups) + 2
-        let d := ({ D.init with cfg := some r.cfg, bound := bound }).put (fresh (preFiles pre))
+        let d := ({ D.init with cfg := some r.cfg, opts := opts, bound := bound }).put (fresh (preFiles pre))
         (d, "new=ok | " ++ obs d)
     | _, _ => (D.init, "bad-op")
   | ["w", n] =>
@@ -85,6 +88,19 @@ def step (d : D) (line : String) : D × String :=
     match d.cfg with
     | some _ => let d' := d.put (reopen d.st); (d', "new=ok | " ++ obs d')
     | none => (d, "norot")
+  | ["reopen", o] =>
+    -- restart with other limits on the same path (the Path option of the history is kept)
+    match d.cfg, parseOpts o with
+    | some _, some extra =>
+      if extra.any (fun | .path _ => true | _ => false) then (d, "bad-op") else
+      match Rot.new (extra ++ [Opt.path "p"]) with
+      | none => (d, "bad-op")
+      | some r =>
+        let s := reopen d.st
+        let d' := { d with cfg := some r.cfg, opts := extra ++ [Opt.path "p"], bound := max d.bound (r.cfg.maxBackups + 2) }.put s
+        (d', "new=ok | " ++ obs d')
+    | none, some _ => (d, "norot")
+    | _, none => (d, "bad-op")
   | ["sync"] =>
     match d.cfg with
     | some _ => (d, "sync=nil")
